@@ -49,6 +49,13 @@ class VersionInfoMessage(MessagePayload):
     def unpack(self, buffer: bytes, offset: int = 0, message_version: int = MessagePayload._UNSPECIFIED_VERSION) -> int:
         parsed = self.VersionInfoMessageConstruct.parse(buffer[offset:])
         self.__dict__.update(parsed)
+        # The wire length fields are recomputed by pack(); do not keep the received values (which include any NUL
+        # padding stripped from the strings) on the object.
+        del self.__dict__['_io']
+        del self.__dict__['fw_version_length']
+        del self.__dict__['engine_version_length']
+        del self.__dict__['os_version_length']
+        del self.__dict__['rx_version_length']
         return parsed._io.tell()
 
     def __repr__(self):
